@@ -103,11 +103,13 @@ pub fn c09_scenario(seed: u64, idx: u64) -> Scenario {
         sc.conns.push(o);
         // other clients at the same time as each member of the group, with another Origin (configured
         // when the group's is not, and the other way round): what the group gets must not depend on them
-        if rng.chance(1, 3) {
+        if rng.chance(1, 2) {
             let mine = hs.iter().find(|(n, _)| n == "Origin").map(|(_, v)| v.clone());
             for ph in gid..gid + 3 {
-                for _ in 0..rng.range(1, 3) {
-                    let theirs = if mine.as_ref().map(|m| origins.contains(m)).unwrap_or(false) || origins.is_empty() { "http://other.example".to_string() } else { origins[rng.below(origins.len())].clone() };
+                for k in 0..rng.range(2, 5) {
+                    // (every other one comes from the group's own origin: two requests of one origin in
+                    // flight next to one of another)
+                    let theirs = if k % 2 == 1 && mine.is_some() { mine.clone().unwrap() } else if mine.as_ref().map(|m| origins.contains(m)).unwrap_or(false) || origins.is_empty() { "http://other.example".to_string() } else { origins[rng.below(origins.len())].clone() };
                     let m = *rng.pick(&["GET", "OPTIONS", "HEAD"]);
                     let id = sc.conns.len();
                     sc.conns.push(Conn::simple(id, ph as u32, req(m, &p, &[("Origin", &theirs), ("Access-Control-Request-Method", "GET")], b""), "interferer"));
@@ -298,6 +300,14 @@ pub fn c08_scenario(seed: u64, idx: u64) -> Scenario {
     if rng.chance(2, 3) {
         rng.shuffle(&mut paths);
         paths.truncate(rng.range(1, 3));
+    }
+    // two different symbolic links to files, asked for again and again at the same time (media players
+    // fetch a linked file range after range): anything remembered about "the last link" is shared
+    let mut links: Vec<String> = sc.tree.entries.iter().filter(|e| matches!(e.kind, EntryKind::Symlink(_)) && !e.path.contains("dirlink")).filter_map(|e| e.path.strip_prefix("root/").map(|r| format!("/{}", r))).collect();
+    if links.len() >= 2 && rng.chance(1, 2) {
+        rng.shuffle(&mut links);
+        links.truncate(2);
+        paths = links;
     }
     // a small palette of distinct requests, each issued on one or more connections
     let kinds = rng.range(2, 8);
